@@ -877,7 +877,7 @@ fn clone_float<R: Round, const B: Word>(_op: &str, a: &[&str]) -> Vec<String> {
         } else {
             m = -m;
         }
-        format!("{},{}", c.show(), (src.show() == s0) as u8)
+        format!("{},{},{}", c.show(), (src.show() == s0) as u8, (c == src) as u8)
     }));
     out.push(form("clone_from", || {
         let src = fmake::<R, B>(a[0], a[1], a[2]);
@@ -885,13 +885,17 @@ fn clone_float<R: Round, const B: Word>(_op: &str, a: &[&str]) -> Vec<String> {
         dst.clone_from(&src);
         let r = dst.show();
         let s0 = src.show();
+        // equal to clone(), and a follow-up operation sees the same value and precision
+        let c = src.clone();
+        let same = dst == c && dst.precision() == c.precision()
+            && (dst.repr().is_infinite() || (&dst * &src).show() == (&c * &src).show());
         if !dst.repr().is_infinite() {
             dst <<= 3;
             dst *= FBig::<R, B>::from(7u8);
         } else {
             dst = -dst;
         }
-        format!("{},{}", r, (src.show() == s0) as u8)
+        format!("{},{},{}", r, (src.show() == s0) as u8, same as u8)
     }));
     out
 }
@@ -904,7 +908,8 @@ fn clone_ratio(a: &[&str]) -> Vec<String> {
         let mut dst = rbig(a[2], a[3]);
         dst.clone_from(&src);
         let c = src.clone();
-        let r = format!("{},{}", dst.show(), c.show());
+        let same = dst == c && (&dst - &c).show() == (&c - &src).show() && (&dst * &src).show() == (&c * &src).show();
+        let r = format!("{},{},{}", dst.show(), c.show(), same as u8);
         let s0 = src.show();
         dst += RBig::ONE;
         let ok1 = src.show() == s0 && c.show() == s0;
@@ -916,7 +921,8 @@ fn clone_ratio(a: &[&str]) -> Vec<String> {
         let mut dst = relaxed(a[2], a[3]);
         dst.clone_from(&src);
         let c = src.clone();
-        let r = format!("{},{}", dst.show(), c.show());
+        let same = dst == c && (&dst - &c).show() == (&c - &src).show() && (&dst * &src).show() == (&c * &src).show();
+        let r = format!("{},{},{}", dst.show(), c.show(), same as u8);
         let s0 = src.show();
         dst += Relaxed::ONE;
         let ok1 = src.show() == s0 && c.show() == s0;
@@ -926,21 +932,42 @@ fn clone_ratio(a: &[&str]) -> Vec<String> {
     out
 }
 
-/// `clonem <modulus> <a> <b>` : Reduced clone and clone_from
+/// `clonem <modulus> <a> <b> [<modulus of the destination>]` : Reduced clone and clone_from; the
+/// destination may live in another ring (same or different representation / word count)
 fn clone_reduced(a: &[&str]) -> Vec<String> {
     let mut out = Vec::new();
+    let m_src = ubig(a[0]);
+    let m_dst = if a.len() > 3 { ubig(a[3]) } else { ubig(a[0]) };
     out.push(form("reduced", || {
-        let ring = ConstDivisor::new(ubig(a[0]));
+        let ring = ConstDivisor::new(m_src.clone());
+        let ring2 = ConstDivisor::new(m_dst.clone());
         let src = ring.reduce(ibig(a[1]));
-        let mut dst = ring.reduce(ibig(a[2]));
+        let mut dst = ring2.reduce(ibig(a[2]));
         dst.clone_from(&src);
         let c = src.clone();
-        let r = format!("{},{}", dst.show(), c.show());
+        // `==` and `+` panic with 'different rings' if clone_from left the destination in its old ring
+        let eq = (dst == c) as u8;
+        let sum = &dst + &src;
+        let r = format!("{},{},{},{},{},{}", dst.show(), hu(&dst.modulus()), c.show(), hu(&c.modulus()), eq, sum.show());
         let s0 = src.show();
         dst += ring.reduce(1u8);
         let ok1 = src.show() == s0 && c.show() == s0;
         drop(src);
         format!("{},{}", r, (ok1 && c.show() == s0) as u8)
+    }));
+    // a history of clone_from: other ring -> ring of src -> back -> ring of src again
+    out.push(form("chain", || {
+        let ring = ConstDivisor::new(m_src.clone());
+        let ring2 = ConstDivisor::new(m_dst.clone());
+        let src = ring.reduce(ibig(a[1]));
+        let other = ring2.reduce(ibig(a[2]));
+        let mut z = other.clone();
+        z.clone_from(&src);
+        z.clone_from(&other);
+        let mid = format!("{},{},{}", z.show(), hu(&z.modulus()), (z == other) as u8);
+        z.clone_from(&src);
+        let prod = &z * &src;
+        format!("{},{},{},{},{}", mid, z.show(), hu(&z.modulus()), (z == src) as u8, prod.show())
     }));
     out
 }
